@@ -209,11 +209,12 @@ class _CommonFile:
             # NOTE: if multiple entries for a key, we use the first one,
             #       which seems to match htpasswd source
             if key in records:
+                # NOTE: only the first entry counts (as for apache itself); the shadowed line
+                #       is dropped, otherwise it would come back to life if the first entry is deleted.
                 logging.warning(
                     "username occurs multiple times in source file: %r",
                     key,
                 )
-                skipped += line
                 continue
 
             # flush buffer of skipped whitespace lines
